@@ -39,9 +39,9 @@ namespace {
 
 static const int HDR = 8, REC = 32;
 enum OpKind { OP_UPDATE, OP_REACT_A, OP_REACT_B, OP_QUERY, OP_REQUEST, OP_BATCH, OP_SUCCEED, OP_FAIL, OP_PLAN_APPEND, OP_PLAN_CLEAR, OP_RESET,
-			  OP_ENTER_EXIT, OP_SAVE_LOAD, OP_REPLAY, OP_LOGGER, OP_SWITCH, OP_QUERY_B, OP_PLAN_REMOVE, OP_COPY_DROP, OP_COUNT };
+			  OP_ENTER_EXIT, OP_SAVE_LOAD, OP_REPLAY, OP_LOGGER, OP_SWITCH, OP_QUERY_B, OP_PLAN_REMOVE, OP_COPY_DROP, OP_CHURN, OP_COUNT };
 static const char* OPN[OP_COUNT] = {"update", "react<A>", "react<B>", "query", "request", "batch", "succeed", "fail", "plan.append", "plan.clear", "reset",
-			  "enter/exit", "save->load", "replay", "logger", "switch", "query<B>", "plan.remove", "copy+drop-original"};
+			  "enter/exit", "save->load", "replay", "logger", "switch", "query<B>", "plan.remove", "copy+drop-original", "churn"};
 static const char* TTN[7] = {"change", "restart", "resume", "select", "utilize", "randomize", "schedule"};
 static const char* ACTN[A_COUNT] = {"-", "request", "cancel", "succeed", "fail", "consume", "plan.append", "plan.clear", "burst", "succeed(other)", "fail(other)", "noforward"};
 static const char* MN[] = {"none", "select", "rank", "utility", "entryGuard", "enter", "reenter", "preUpdate", "update", "postUpdate", "preReact", "react", "query", "postReact", "exitGuard", "exit", "planSucceeded", "planFailed"};
@@ -577,6 +577,11 @@ static void dumpTrace(const Ctx& x) {
 }
 
 void Walker::step(const Op& o, size_t index) {
+	if (o.kind == OP_CHURN) { // a long run of plain immediate transitions between two destinations: whatever only shows after more than 128 steps
+		// (saturating activity counters, wrap-arounds, slow leaks); every one of them is a normal, fully judged step
+		const int k = 131 + o.a2 % 8; Op q{}; q.kind = OP_REQUEST; q.flags = 1; q.a0 = T_CHANGE; q.envSeed = o.envSeed; q.rndSel = o.rndSel; for (auto& e : q.script) { e.action = A_NONE; e.used = false; }
+		for (int i = 0; i < k && S.failure.empty(); ++i) { q.a1 = (i & 1) ? o.a1 : o.a0; step(q, index); }
+		st.cls("op_churn"); return; }
 	Inst& in = I(); Ctx& x = in.ctx; Instance& f = *in.fsm;
 	++S.stepNo; S.curOp = index; S.lifeAcc = 1469598103934665603ull + index;
 	struct LifeNote { Session& S; size_t i; ~LifeNote() { if (S.stepLife.size() <= i) S.stepLife.resize(i + 1, 0); S.stepLife[i] = S.lifeAcc; } } lifeNote{S, index};
@@ -1129,6 +1134,10 @@ void Walker::firstActivation(Inst& in) {
 		std::vector<Round> rs = segmentRounds(x);
 		if ((int) rs.size() - 1 >= HV_SUBST_LIMIT && !rs.back().issued.empty()) { for (int i = rs.back().firstEv; i <= rs.back().lastEv; ++i) if (x.tr[i].kind == E_ACT_REQ && (int) in.queued.size() < HV_COMPO_COUNT) { in.queued.push_back(Req{x.tr[i].a, x.tr[i].b}); in.queuedTags.push_back(x.tr[i].tag); } st.cls("activation_with_leftover_requests"); } }
 	enteredMatchesActive(in, "first activation");
+	// C09/C14: requests issued by entry guards during the activation are transitions like any other: the history records them, the enter()
+	// callbacks see them (payloads included) in currentTransitions(). Round 0 is the default activation itself (no pending transition).
+	if ((S.want("C14") || S.want("C09")) && !x.overflow) { std::vector<Round> rs = segmentRounds(x);
+		if (rs.size() >= 2 && rs.back().issued.empty()) { bool none[HV_NS] = {false}; st.cls("activation_history_judged"); judgeHistory(in, "first activation", rs, none); } }
 }
 
 //------------------------------------------------------------------------------
@@ -1251,16 +1260,17 @@ static std::string hv_render(const hv::Bytes& b) {
 #ifndef HV_FUZZER
 // op-kind weights per property profile
 static std::vector<int> profileWeights(const std::string& p) {
-	//                      upd reA reB qry req bat suc fai pAp pCl rst e/x s/l rpl log swi qB  pRm c+d
+	//                      upd reA reB qry req bat suc fai pAp pCl rst e/x s/l rpl log swi qB  pRm c+d chu
 	if (p == "C04" || p == "C13" || p == "C14")
-		return std::vector<int>{ 6,  3,  0,  1, 12,  3,  0,  0,  0,  0,  1,  1,  0,  0,  1,  0,  0,  0,  0};
-	if (p == "C09") return std::vector<int>{ 6,  3,  0,  1, 12,  3,  0,  0,  0,  0,  1,  4,  0,  0,  1,  0,  0,  0,  0};
-	if (p == "C02") return std::vector<int>{ 6,  2,  0,  1, 12,  5,  0,  0,  0,  0,  2,  1,  0,  0,  1,  0,  0,  0,  0};
-	if (p == "C11") return std::vector<int>{ 6,  3,  1,  1, 10,  6,  1,  1,  3,  1,  1,  1,  1,  2,  1,  1,  1,  1,  1};
-	if (p == "C05") return std::vector<int>{ 6,  6,  2,  6,  8,  1,  0,  0,  0,  0,  1,  1,  0,  0,  1,  0,  2,  0,  0};
-	if (p == "C06") return std::vector<int>{10,  4,  1,  0,  4,  0,  3,  2,  8,  1,  1,  1,  0,  0,  0,  0,  0,  2,  0};
-	if (p == "C08") return std::vector<int>{ 3,  1,  0,  0, 10,  2,  0,  0,  1,  0,  1,  2,  6,  0,  0,  4,  0,  0,  0};
-	return std::vector<int>{ 6,  3,  1,  2, 10,  3,  1,  1,  2,  1,  1,  1,  1,  0,  1,  1,  1,  1,  0};
+		return std::vector<int>{ 6,  3,  0,  1, 12,  3,  0,  0,  0,  0,  1,  1,  0,  0,  1,  0,  0,  0,  0,  0};
+	if (p == "C09") return std::vector<int>{ 6,  3,  0,  1, 12,  3,  0,  0,  0,  0,  1,  4,  0,  0,  1,  0,  0,  0,  0,  0};
+	if (p == "C02") return std::vector<int>{ 6,  2,  0,  1, 12,  5,  0,  0,  0,  0,  2,  1,  0,  0,  1,  0,  0,  0,  0,  0};
+	if (p == "C11") return std::vector<int>{18,  9,  3,  3, 30, 18,  3,  3,  9,  3,  3,  3,  3,  6,  3,  3,  3,  3,  3,  1};
+	if (p == "C05") return std::vector<int>{ 6,  6,  2,  6,  8,  1,  0,  0,  0,  0,  1,  1,  0,  0,  1,  0,  2,  0,  0,  0};
+	if (p == "C06") return std::vector<int>{10,  4,  1,  0,  4,  0,  3,  2,  8,  1,  1,  1,  0,  0,  0,  0,  0,  2,  0,  0};
+	if (p == "C08") return std::vector<int>{ 3,  1,  0,  0, 10,  2,  0,  0,  1,  0,  1,  2,  6,  0,  0,  4,  0,  0,  0,  0};
+	if (p == "C16") return std::vector<int>{18,  9,  3,  6, 30,  9,  3,  3,  6,  3,  3,  3,  3,  0,  3,  3,  3,  3,  0,  1};   // long runs: the activity history saturates after 127 / 128 report updates
+	return std::vector<int>{ 6,  3,  1,  2, 10,  3,  1,  1,  2,  1,  1,  1,  1,  0,  1,  1,  1,  1,  0,  0};
 }
 
 static rc::Gen<hv::Bytes> hv_gen() {
